@@ -82,6 +82,11 @@ ANCHORS = [
     ("WATCH_ARM_FIRST", "src/sync/watch.rs",
      (r"^\s*watcher\.watch\(&self\.source, RecursiveMode::Recursive\)\?;", r"^\s*self\.engine\.sync\(&self\.source, &self\.destination\)\.await\?;"), "before"),
     ("MTIME_TOLERANCE_S", "src/sync/strategy.rs", r"^\s*mtime_tolerance: ([0-9_]+), // 1 second tolerance for mtime comparison", "nat"),
+    # C02: protective steps against writing through destination symlinks
+    ("COPY_REMOVES_DEST_SYMLINK", "src/transport/local.rs", r"impl Transport for LocalTransport \{[\s\S]*", "count:remove_if_symlink\\(dest\\)\\.await\\?;"),
+    ("UPDATE_ROUTES_SYMLINKS_TO_HANDLER", "src/sync/transfer.rs", r"pub async fn update\([\s\S]*?(if source\.is_symlink \{\s*return self\.handle_symlink\(source, dest_path\)\.await;)", "flag"),
+    ("CREATE_SYMLINK_REPLACES_ENTRY", "src/transport/local.rs", r"async fn create_symlink\([\s\S]*?(if let Ok\(meta\) = tokio::fs::symlink_metadata\(dest\)\.await \{\s*if !meta\.is_dir\(\) \{\s*tokio::fs::remove_file\(dest\))", "flag"),
+    ("PLANNER_FORCES_UPDATE_OVER_DEST_LINK", "src/sync/mod.rs", r"(matches!\(task\.action, SyncAction::Skip \| SyncAction::Create\)\s*&& task\.source\.as_ref\(\)\.is_some_and\(\|f\| !f\.is_symlink\)\s*&& matches!\(self\.transport\.read_link\(&task\.dest_path\)\.await, Ok\(Some\(_\)\)\))", "flag"),
     ("TEMP_SUFFIX", "src/transport/local.rs", r'name\.push\("([^"]+)"\);', "str"),
 ]
 
